@@ -1,4 +1,5 @@
 import LunarVerif.Proofs.C02
+import LunarVerif.Proofs.C02Sched
 /-!
 # C02 — Concurrency quotas bound in-flight requests and always free their slots
 
@@ -164,6 +165,71 @@ theorem quiescent_history_probe_admitted (cfg : Cfg) (hwf : cfg.wf = true) (even
   rw [this]
   exact hmax q hq
 
+
+/-! ## All schedules: release under arbitrary interleavings (`Model/C02Sched.lean`)
+
+Threads = the engine's calls as programs of critical sections (request walk with `Inc` / `Allowed` per level,
+response-direction `Dec`s, `OnRequestDrop`, `OnResponseFinish`, GC agents), each in program order, interleaved by an
+arbitrary schedule `sched : List Ev` (spawns, single instructions, clock).  Schedule class: one request thread per
+transaction id; its response / proxy-error threads (any number, concurrently) and the GC agents for its members start
+after the request thread has finished. -/
+
+/-- Every configuration reached by any schedule satisfies the thread-level invariant. -/
+theorem all_schedules_invariant (cfg : Cfg) (hwf : cfg.wf = true) (sched : List Ev) :
+    GInv cfg (grun cfg (G.init cfg) sched) :=
+  ginv_grun hwf sched _ (GInv.init cfg)
+
+/-- Whatever the other threads do in between — other transactions' requests, responses and errors, a GC agent
+    removing the very same member, a second `Dec` of the same transaction (response racing with a proxy error):
+    once a thread of transaction `r` has run the `SRem` section of `Dec` at level `q` (`clr q`), `r` holds no member
+    in `q` any more, and every add of a member of `r` to `q` has been matched by exactly one removal. -/
+theorem released_exactly_once_all_schedules (cfg : Cfg) (hwf : cfg.wf = true) (sched : List Ev)
+    (tid : Nat) (t : Thread) (q : Nat)
+    (ht : (grun cfg (G.init cfg) sched).th tid = some t) (hq : t.loc.clr q = true) :
+    (∀ m ∈ (grun cfg (G.init cfg) sched).s.members q, m.req ≠ t.owner) ∧
+    ∀ m, m.req = t.owner →
+      (grun cfg (G.init cfg) sched).s.rems q m = (grun cfg (G.init cfg) sched).s.adds q m := by
+  have hG := all_schedules_invariant cfg hwf sched
+  have hno := (hG.thr tid t ht).clrNo q hq
+  refine ⟨hno, ?_⟩
+  intro m hm
+  have hacc := accounted_reach cfg _ hG.reach q m
+  have : ((grun cfg (G.init cfg) sched).s.members q).count m = 0 :=
+    List.count_eq_zero.mpr (fun hin => hno m hin hm)
+  omega
+
+/-- A finished response thread, and a finished request thread that was refused / answered early, have run that
+    section for every concurrent quota: the transaction holds no slot anywhere. -/
+theorem released_on_ending_all_schedules (cfg : Cfg) (hwf : cfg.wf = true) (sched : List Ev)
+    (tid : Nat) (t : Thread)
+    (ht : (grun cfg (G.init cfg) sched).th tid = some t) (hfin : t.todo = [])
+    (hk : t.kind = .resp ∨ (t.kind = .request ∧ t.loc.rel = true)) (q : Nat) (hc : cfg.isConc q = true) :
+    ∀ m ∈ (grun cfg (G.init cfg) sched).s.members q, m.req ≠ t.owner := by
+  have hT := (all_schedules_invariant cfg hwf sched).thr tid t ht
+  rcases hT.covers hk q hc with h | ⟨i, hi, _⟩
+  · exact hT.clrNo q h
+  · rw [hfin] at hi; cases hi
+
+/-- Quiescence for all schedules: once every transaction that ever sent a request has a finished response thread
+    (or was refused / answered early and that request thread has finished), every concurrent quota's set is empty —
+    whatever else is still running. -/
+theorem quiescent_all_schedules (cfg : Cfg) (hwf : cfg.wf = true) (sched : List Ev)
+    (hended : ∀ r tid0, (grun cfg (G.init cfg) sched).reqTid r = some tid0 →
+      ∃ tid t, (grun cfg (G.init cfg) sched).th tid = some t ∧ t.owner = r ∧ t.todo = [] ∧
+        (t.kind = .resp ∨ (t.kind = .request ∧ t.loc.rel = true)))
+    (q : Nat) (hc : cfg.isConc q = true) : (grun cfg (G.init cfg) sched).s.members q = [] := by
+  apply List.eq_nil_iff_forall_not_mem.mpr
+  intro m hm
+  have hG := all_schedules_invariant cfg hwf sched
+  obtain ⟨tid0, h0⟩ := Option.isSome_iff_exists.mp (hG.src q m hm)
+  obtain ⟨tid, t, ht, ho, hfin, hk⟩ := hended m.req tid0 h0
+  exact released_on_ending_all_schedules cfg hwf sched tid t ht hfin hk q hc m hm ho.symm
+
+/-- The bound for all schedules of the thread model (its states are `Reach`). -/
+theorem members_le_max_all_schedules (cfg : Cfg) (hwf : cfg.wf = true) (sched : List Ev) (q : Nat) :
+    ((grun cfg (G.init cfg) sched).s.members q).length ≤ cfg.max q :=
+  members_le_max cfg _ (all_schedules_invariant cfg hwf sched).reach q
+
 /-! ### Non-vacuity (and the former violation witnesses, now regressions) -/
 
 /-- one concurrent quota (max 1, expiry 11 incl. the dead-request delta, GC every 10); the flow answers POST -/
@@ -234,5 +300,33 @@ example : (∀ r ∈ [1, 2, 3, 4], lastOpen r (run exC (S.init exC)
       [.req 1 false, .req 2 false, .resp 1, .req 2 true, .req 3 false, .err 3]) false = false) ∧
     lastOpen 3 (run exC (S.init exC) [.req 1 false, .req 2 false, .resp 1, .req 2 true, .req 3 false]) false = true := by
   decide
+
+
+/-- All-schedules theorems: transaction 1 is admitted (thread 0, 11 instructions); then its response (thread 2) runs
+    interleaved with a GC agent that took the very same member (thread 1): GC's `SRem` lands between the response's
+    lookup and its own `SRem`, GC's status delete before the response's.  The response has cleared level 0, the set is
+    empty, one add, one removal. -/
+def schedGcRace : List Ev :=
+  [.spawnReq 0 1 false] ++ List.replicate 11 (.run 0) ++
+  [.spawnGc 1 0 ⟨11, 1⟩, .spawnResp 2 1, .run 2, .run 2, .run 1, .run 2, .run 2, .run 1, .run 2, .run 2]
+
+example : ((grun exC (G.init exC) (schedGcRace.take 12)).s.members 0 = [⟨11, 1⟩]) ∧
+    (grun exC (G.init exC) schedGcRace).s.members 0 = [] ∧
+    ((grun exC (G.init exC) schedGcRace).th 2).map (fun t => (t.todo.length, t.loc.clr 0, t.kind == .resp)) =
+      some (0, true, true) ∧
+    (grun exC (G.init exC) schedGcRace).s.adds 0 ⟨11, 1⟩ = 1 ∧
+    (grun exC (G.init exC) schedGcRace).s.rems 0 ⟨11, 1⟩ = 1 ∧
+    (grun exC (G.init exC) schedGcRace).reqTid 1 = some 0 := by decide
+
+/-- A response (thread 1) racing with a proxy error (thread 2) for the same transaction: both read the status before
+    either removes; one `SRem` removes, the other is a no-op; one removal in total. -/
+def schedRespErr : List Ev :=
+  [.spawnReq 0 1 false] ++ List.replicate 11 (.run 0) ++
+  [.spawnResp 1 1, .spawnErr 2 1, .run 1, .run 2, .run 1, .run 2, .run 1, .run 2, .run 2, .run 1, .run 2, .run 1, .run 1]
+
+example : (grun exC (G.init exC) schedRespErr).s.members 0 = [] ∧
+    ((grun exC (G.init exC) schedRespErr).th 1).map (fun t => (t.todo.length, t.loc.clr 0)) = some (0, true) ∧
+    ((grun exC (G.init exC) schedRespErr).th 2).map (fun t => (t.todo.length, t.loc.clr 0)) = some (0, true) ∧
+    (grun exC (G.init exC) schedRespErr).s.rems 0 ⟨11, 1⟩ = 1 := by decide
 
 end LunarVerif.C02
